@@ -180,7 +180,12 @@ def form_compat(domain: str, op: str, s: int, t: int) -> bool:
 
 
 STATE_FILES = ["src/spox/_adapt.py", "src/spox/_graph.py"]
-_OK_DECORATORS = {"property", "staticmethod", "classmethod", "overload", "dataclass", "abstractmethod"}
+# files a build passes through that legitimately have module-level tables: only what can silently carry state
+# from one call to the next is listed for them (mutable default arguments, caching decorators, `global`)
+STATE_FILES_LIGHT = ["src/spox/_build.py", "src/spox/_scope.py", "src/spox/_function.py", "src/spox/_inline.py",
+                     "src/spox/_node.py", "src/spox/_internal_op.py", "src/spox/_schemas.py", "src/spox/_public.py",
+                     "src/spox/_utils.py", "src/spox/_fields.py", "src/spox/_attributes.py"]
+_OK_DECORATORS = {"property", "staticmethod", "classmethod", "overload", "dataclass", "abstractmethod", "contextmanager"}
 
 
 def _immutable_literal(v) -> bool:
@@ -196,14 +201,15 @@ def adapt_state() -> tuple[list[str], list[str]]:
     files that adapt nodes: (state that outlives a build, attribute write sites)."""
     state: list[str] = []
     writes: list[str] = []
-    for rel in STATE_FILES:
+    for rel in STATE_FILES + STATE_FILES_LIGHT:
         short = rel.rsplit("/", 1)[-1]
+        light = rel in STATE_FILES_LIGHT
         try:
             mod = parse(rel)
         except Exception as e:  # noqa: BLE001
             state.append(f"{short}:unreadable:{type(e).__name__}")
             continue
-        for st in mod.body:
+        for st in ([] if light else mod.body):
             tgts, val = [], None
             if isinstance(st, ast.Assign):
                 tgts, val = st.targets, st.value
@@ -235,7 +241,7 @@ def adapt_state() -> tuple[list[str], list[str]]:
                         if not _immutable_literal(dflt) and not isinstance(dflt, (ast.Name, ast.Attribute)):
                             state.append(f"{short}:mutable-default:{ch.name}")
                 elif isinstance(ch, ast.ClassDef):
-                    for st in ch.body:
+                    for st in ([] if light else ch.body):
                         val = None
                         if isinstance(st, ast.Assign):
                             val, nm = st.value, ast.unparse(st.targets[0])
@@ -248,7 +254,7 @@ def adapt_state() -> tuple[list[str], list[str]]:
                         state.append(f"{short}:class-attribute:{ch.name}.{nm}")
                 elif isinstance(ch, ast.Global):
                     state.append(f"{short}:global:{fn}:{','.join(ch.names)}")
-                if fn is not None or cur is not None:
+                if (fn is not None or cur is not None) and not light:
                     tg = []
                     if isinstance(ch, ast.Assign):
                         tg = ch.targets
